@@ -189,8 +189,19 @@ example :
   refine ⟨by decide, rfl, [.bool true, .int 0, .variant (.array (.basic .b)) (.array [.bool false, .bool true])],
     rfl, by decide, by decide⟩
 
+/-- Arity (after repair bf83351, which replaced the silent `zip` truncation): whenever `marshal` returns -
+for ANY Python values, conforming or not - the variableList holds exactly one value per complete type of the
+signature.  (The same holds inside structs and dict entries, which recurse through the same loop:
+`Code.marshalSeq_ok_arity`.)  So "the right number of values" is no longer a hypothesis a caller has to
+check: it is implied by success. -/
+theorem C01_marshal_arity (fuel : Nat) (ts : List Ty) (pv : PyVal) (off : Nat) (le : Bool) (fds : Code.Fds)
+    (r : Nat × Bytes × Code.Fds) (h : Code.marshal fuel (renderAll ts) pv off le fds = .ok r) :
+    ∃ items, Code.topItems pv = .ok items ∧ items.length = ts.length :=
+  Code.marshal_ok_arity fuel ts pv off le fds r h
+
 end Txdbus
 
+#print axioms Txdbus.C01_marshal_arity
 #print axioms Txdbus.C01_roundtrip_conf
 #print axioms Txdbus.C01_roundtrip_checked
 #print axioms Txdbus.C01_roundtrip_valid
